@@ -1,7 +1,7 @@
 (** C08 -- an adapter index changes only speed, never what is found.
     Property theorems only.  Model: Model/Index.v. *)
 From Coq Require Import ZArith List Bool.
-From CV Require Import Model.Base Model.Align Model.Adapters Model.Index Proofs.IndexProofs.
+From CV Require Import Generated.Tables Model.Base Model.Align Model.Adapters Model.Index Proofs.IndexProofs Proofs.IndexLoop.
 Import ListNotations.
 Open Scope Z_scope.
 
@@ -29,3 +29,43 @@ Theorem C08_unique_best_any_order : forall ads s l1 a l2 e m,
   index_lookup ads s = Some (length l1, e, m).
 Proof. exact index_lookup_unique_best. Qed.
 Print Assumptions C08_unique_best_any_order.
+
+(** the coordinates of every match reported through the index lie inside the read and are anchored
+    (5' adapters: the match starts at 0; 3' adapters: it ends at the end of the read) -- also for
+    reads shorter than the longest indexed string *)
+Theorem C08_coordinates : forall prefix ads sequence res,
+  Forall wf_iad ads -> index_match prefix ads sequence = Some res -> coords_ok prefix (zlen sequence) res.
+Proof. exact index_match_coords. Qed.
+Print Assumptions C08_coordinates.
+
+(** a string within k edits of an adapter differs from it in length by at most k: the keys of the
+    dictionary have one of the indexed lengths *)
+Theorem C08_key_lengths : forall ads s r e m,
+  Forall wf_iad ads -> index_lookup ads s = Some (r, e, m) -> In (zlen s) (index_lengths ads).
+Proof. exact index_lookup_len. Qed.
+Print Assumptions C08_key_lengths.
+
+(** whenever exactly one adapter occurs at the anchored end of an N-free read -- every anchored affix
+    the dictionary knows belongs to adapter r0, and one of them has an indexed length that fits into
+    the read -- the index reports a match, it is a match of r0, and its coordinates lie inside the read *)
+Theorem C08_unique_reported : forall prefix ads sequence r0 x0 e0 m0,
+  Forall wf_iad ads -> Forall (fun x => 1 <= x) (index_lengths ads) ->
+  (forall s r e m, is_affix prefix (map (tr upper_table) sequence) s -> lookup_affix ads s = Some (r, e, m) -> r = r0) ->
+  In x0 (index_lengths ads) -> x0 <= zlen sequence ->
+  has_n (make_affix prefix (map (tr upper_table) sequence) x0) = false ->
+  index_lookup ads (make_affix prefix (map (tr upper_table) sequence) x0) = Some (r0, e0, m0) ->
+  exists rs re e m, index_match prefix ads sequence = Some (r0, rs, re, e, m) /\ coords_ok prefix (zlen sequence) (r0, rs, re, e, m).
+Proof. exact index_reports_unique. Qed.
+Print Assumptions C08_unique_reported.
+
+(** non-vacuity: two 3' adapters of different lengths with indels, a read that is exactly the
+    shorter adapter (the F8a input): the hypotheses hold and the whole read is reported as a match *)
+Definition ex_ads : list iad :=
+  [mkIad (mkAd Suffix [84;84;65;67;84;65;71;71;71;67] false false true 10 false) [0;0;0;0;0;0;0;0;0;0;1] 1;
+   mkIad (mkAd Suffix [65;65;67;84;65;67;71] false false true 7 false) [0;0;0;0;0;0;0;0] 0].
+Example C08_nonvacuous :
+  Forall wf_iad ex_ads /\ Forall (fun x => 1 <= x) (index_lengths ex_ads) /\
+  index_match false ex_ads [65;65;67;84;65;67;71] = Some (1%nat, 0, 7, 0, 7).
+Proof.
+  split; [repeat constructor; vm_compute; congruence|]. split; [vm_compute; repeat constructor; congruence | vm_compute; reflexivity].
+Qed.
